@@ -3,6 +3,7 @@ package sim
 import (
 	"github.com/mlange-42/arche/ecs"
 	"github.com/mlange-42/arche/filter"
+	"verifharness/wx"
 )
 
 // Std is the feature set that is always on.
@@ -126,5 +127,70 @@ func LogicCfg(id string, k int, feat uint32, oracles uint32) *Cfg {
 	c.BatchRefs = []int{0, 3}
 	c.RegSpecs = []int{0, 1, 2, 6}
 	c.Move = []int{a, b}
+	return c
+}
+
+// ---- boundary seeds: constructed non-initial states at the scale-dependent boundaries of the implementation
+// (pagedSlice page = 32 tables / nodes, bitSet word = 64 entity IDs, default capacity 128), explored to a small depth.
+
+// BoundaryTablesCfg: 33 relation tables in one node (33 targets with one child each); focus on the tables around the page boundary.
+func BoundaryTablesCfg(id string, extra int, feat uint32, oracles uint32) *Cfg {
+	c := RelCfg(id, 0, 66+extra, 0, 8, feat|FBuilder, oracles)
+	for t := 0; t < 33; t++ {
+		c.Prologue = append(c.Prologue, wx.Op{K: OpNewEntity, A: 0})
+	}
+	for t := 0; t < 33; t++ {
+		c.Prologue = append(c.Prologue, wx.Op{K: OpBuilderNew, A: 1, B: 1, C: int8(t), D: 0})
+	}
+	c.Focus = []int{0, 31, 32, 33, 64, 65}
+	for i := 0; i < extra; i++ {
+		c.Focus = append(c.Focus, 66+i)
+	}
+	c.BatchRefs = []int{0}
+	c.RegSpecs = []int{0}
+	return c
+}
+
+// BoundaryNodesCfg: 34 archetype nodes (component sets over six components); focus on the entities around the page boundary.
+func BoundaryNodesCfg(id string, extra int, feat uint32, oracles uint32) *Cfg {
+	c := &Cfg{ID: id, K: 34 + extra, CapInc: 4, Feat: feat | Std, Oracles: oracles, MaxRegs: 1}
+	c.Comps = []Kind{KA, KB, KZ, KC, KD, KR}
+	for b := 0; b < 64; b++ {
+		set := []int{}
+		for k := 0; k < 6; k++ {
+			if b&(1<<k) != 0 {
+				set = append(set, k)
+			}
+		}
+		c.Sets = append(c.Sets, set)
+	}
+	for i := 0; i < 34; i++ {
+		c.Prologue = append(c.Prologue, wx.Op{K: OpNewEntity, A: int8(i)})
+	}
+	c.Filters = []FSpec{
+		FAll("All()"), FAll("All(A)", 0), FAll("All(B)", 1), FWithout("All(A).Without(B)", []int{0}, []int{1}),
+		FAll("All(R)", 5), FExclusive("All(A,B).Exclusive()", 0, 1), FAll("All(Z,D)", 2, 4),
+	}
+	c.BatchRefs = []int{1, 3}
+	c.RegSpecs = []int{1, 4}
+	c.Move = []int{0, 1, 4, 5}
+	c.Focus = []int{0, 31, 32, 33}
+	for i := 0; i < extra; i++ {
+		c.Focus = append(c.Focus, 34+i)
+	}
+	return c
+}
+
+// BoundaryEntitiesCfg: pre entities created in one batch, then the exploration continues with the IDs around a boundary (64 or 128).
+func BoundaryEntitiesCfg(id string, pre, extra, capInc int, feat uint32, oracles uint32) *Cfg {
+	c := RelCfg(id, 0, pre+extra, 0, capInc, feat|FBuilder, oracles)
+	c.Sets = [][]int{{}, {1}}
+	c.Prologue = []wx.Op{{K: OpNewBatch, A: 0, B: int8(pre), C: -2, D: 0}}
+	for i := pre - 2; i < pre+extra; i++ {
+		c.Focus = append(c.Focus, i)
+	}
+	c.BatchRefs = []int{0}
+	c.RegSpecs = []int{0}
+	c.MaxBatch = 3
 	return c
 }
